@@ -3,10 +3,11 @@ import itertools
 from .lib import *
 
 RULE = ("decision grid enumerated completely: 9 request methods x status codes x response versions {1.0,1.1} x Content-Length in "
-        "{absent,'0','7','18446744073709551615','18446744073709551616','abc','+5','5 5',non-text,'007'} x Transfer-Encoding in "
+        "{absent,'','0','7','18446744073709551615','18446744073709551616','abc','+5','5 5',non-text,'007'} x Transfer-Encoding in "
         "{absent,chunked,Chunked,'gzip, chunked','chunked, gzip','gzip',identity,non-text} (x Location field present/absent for 3xx); quick: boundary statuses "
         "{101,199,200,204,205,299,300,301,304,305,307,399,400,999}; the same decision preceded by an interim 1xx response (with or without its own "
-        "framing fields) returned on the same flow; thorough: additionally every status 101..999 with 5x4 header "
+        "framing fields) returned on the same flow; the same decision for HTTP/1.0 requests and with Connection: close on the request / "
+        "on the response; thorough: additionally every status 101..999 with 5x4 header "
         "classes. Each cell: head -> try_response -> proceed -> body mode. Status 100 is C11's. oracle = transcription of the "
         "statement's rule list. non-trivial = every cell (each is a distinct decision); distinct = distinct cells")
 TRUSTED_BASE = COMMON_TRUSTED_BASE
@@ -15,9 +16,9 @@ EXHAUSTIVE = {"quick": True, "thorough": True}
 _stats = {"cells": 0, "outcomes": {}}
 
 BOUNDARY = [101, 199, 200, 204, 205, 299, 300, 301, 304, 305, 307, 399, 400, 999]
-CLS = [None, b"0", b"7", b"18446744073709551615", b"18446744073709551616", b"abc", b"+5", b"5 5", b"\xff7", b"007"]
+CLS = [None, b"", b"0", b"7", b"18446744073709551615", b"18446744073709551616", b"abc", b"+5", b"5 5", b"\xff7", b"007"]
 TES = [None, b"chunked", b"Chunked", b"gzip, chunked", b"chunked, gzip", b"gzip", b"identity", b"chunked\x80"]
-CLS_SMALL = [None, b"0", b"7", b"abc", b"+5"]
+CLS_SMALL = [None, b"", b"0", b"7", b"abc", b"+5"]
 TES_SMALL = [None, b"chunked", b"gzip", b"gzip ,  CHUNKED"]
 
 
@@ -53,7 +54,7 @@ INTERIMS = [b"HTTP/1.1 103 Early Hints\r\nLink: </s.css>\r\n\r\n", b"HTTP/1.1 10
             b"HTTP/1.1 199 Misc\r\nContent-Length: 9\r\n\r\n", b"HTTP/1.1 101 Switching\r\nTransfer-Encoding: chunked\r\n\r\n"]
 
 
-def build(method, status, version, cl, te, loc=True, interim=None):
+def build(method, status, version, cl, te, loc=True, interim=None, reqv="1.1", req_close=False, resp_close=False):
     fields = []
     if cl is not None:
         fields.append((b"Content-Length", cl))
@@ -61,18 +62,23 @@ def build(method, status, version, cl, te, loc=True, interim=None):
         fields.append((b"Transfer-Encoding", te))
     if 300 <= status <= 399 and loc:
         fields.append((b"Location", b"/n"))
+    if resp_close:
+        fields.insert(0, (b"Connection", b"close"))
     head = render_response_head(version, status, b"X", fields)
+    rh = [("connection", "close")] if req_close else []
     if method in BODY_METHODS:
-        ops = [op_new(method, "1.1", "http", "a.test", "/", [("content-length", "0")]), "proceed", "write_head #4096", "proceed", "write_body x #0", "proceed"]
+        ops = [op_new(method, reqv, "http", "a.test", "/", rh + [("content-length", "0")]), "proceed", "write_head #4096", "proceed", "write_body x #0", "proceed"]
     else:
-        ops = [op_new(method, "1.1", "http", "a.test", "/", []), "proceed", "write_head #4096", "proceed"]
+        ops = [op_new(method, reqv, "http", "a.test", "/", rh), "proceed", "write_head #4096", "proceed"]
     if interim is not None:
         # an interim response (1xx other than 100) is returned first; the caller keeps reading on the same flow. The framing of the
         # final response is decided by the final response alone.
         ops += ["raw_try_response %s" % hx(interim)]
     ops += ["raw_try_response %s" % hx(head), "q_can_proceed", "proceed", "q_body_mode", "q_can_proceed"]
     return {"ops": ops, "meta": {"cell": [method, status, version, cl.hex() if cl is not None else None, te.hex() if te is not None else None],
-                                 "location": bool(loc and 300 <= status <= 399), "interim": interim is not None}}
+                                 "location": bool(loc and 300 <= status <= 399), "interim": interim is not None,
+                                 "variant": ("request HTTP/%s" % reqv if reqv != "1.1" else "") + (" request Connection: close" if req_close else "") +
+                                            (" response Connection: close" if resp_close else "")}}
 
 
 def generate(rng, tier, mult):
@@ -87,6 +93,13 @@ def generate(rng, tier, mult):
     for m, s, v, cl, te in itertools.product(METHODS, [200, 204, 301, 304, 404], ["1.0", "1.1"], CLS_SMALL, TES_SMALL):
         out.append(build(m, s, v, cl, te, interim=INTERIMS[k % len(INTERIMS)]))
         k += 1
+    # the decision does not depend on the REQUEST's version, nor on Connection: close on either side (a connection that will be closed
+    # anyway still has its response body read as framed)
+    for m, s, v, cl, te in itertools.product(HTTP10_METHODS, BOUNDARY, ["1.0", "1.1"], CLS_SMALL, TES_SMALL):
+        out.append(build(m, s, v, cl, te, reqv="1.0"))
+    for m, s, v, cl, te in itertools.product(METHODS, [200, 204, 301, 302, 307, 404], ["1.0", "1.1"], CLS_SMALL, TES_SMALL):
+        out.append(build(m, s, v, cl, te, resp_close=True))
+        out.append(build(m, s, v, cl, te, req_close=True))
     if tier == "thorough":
         rest = [s for s in range(101, 1000) if s not in BOUNDARY]
         for m, s, v, cl, te in itertools.product(METHODS, rest, ["1.0", "1.1"], CLS_SMALL, TES_SMALL):
@@ -115,7 +128,7 @@ def oracle(script, obs):
     if len(idx) > 1 and not obs[idx[0]].startswith("some "):
         return ["interim response not returned: %s" % obs[idx[0]][:60]]
     o = obs[i]
-    cell = "%s %d HTTP/%s cl=%r te=%r%s" % (m, s, v, cl, te, ("" if script["meta"].get("location", True) or not 300 <= s <= 399 else " (no Location field)") + (" after an interim 1xx on the same flow" if script["meta"].get("interim") else ""))
+    cell = "%s %d HTTP/%s cl=%r te=%r%s" % (m, s, v, cl, te, ("" if script["meta"].get("location", True) or not 300 <= s <= 399 else " (no Location field)") + (" after an interim 1xx on the same flow" if script["meta"].get("interim") else "") + (" [%s]" % script["meta"]["variant"].strip() if script["meta"].get("variant") else ""))
     if exp[0] == "dontcare":
         return []
     if exp[0] == "err":
